@@ -129,6 +129,14 @@ CHECKS.update({
         design="3/C05"),
 })
 
+CHECKS.update({
+    "C19": dict(
+        technique="property-based testing, model-based: Hypothesis-generated command histories (generate / add user file / touch sentinel) executed through the CLI against a reference model of the expected tree, invariants checked after every step",
+        text="Histories of 2-8 (thorough: 2-15) commands over a pool of documents with traversal-shaped titles, tags, schema, operation, property and enum names are run against one sandbox directory: after every step nothing outside the addressed output directory may have changed or appeared; without --overwrite an existing directory must stay byte-identical with an error and exit code 1; with --overwrite (same names and flavour) the tree must equal a fresh generation of the current document plus the untouched user files.",
+        note="histories are step lists from a composite strategy (one shrinkable value) rather than a RuleBasedStateMachine class; flavour or title changes between generations into one directory restrict the step to the containment invariant",
+        design="3/C19"),
+})
+
 NOT_YET = {}
 
 def main():
